@@ -1,5 +1,38 @@
 """Fail-closed translator: `$VERIF_REPO/src/superrec2/utils/dynamic_programming.py` -> `coq/Gen/TableGen.v`.
-(docstring completed below)
+
+The dynamic-programming table and its proxies: `_generate_table` (generated name `gen_generate_table`), of `Table` the methods
+`__init__`, `entry` (twice: `gen_table_entry` for entries with the tag type of the table, `gen_table_entry2` for entries with
+another tag type -- `reconcile_thl` builds its aggregators that way), `__getitem__`, `__setitem__`; of `EntryProxy` `__init__`,
+`_get_real`, `is_infinite`, `value`, `infos`, `update`, `combine`; of `TableProxy` `__init__`, `__getitem__`, `__setitem__`; and
+`Entry.__iter__` (`gen_entry_iter`, which `Gen/EntryGen.v` lacks) are translated statement by statement by `translator/pyfun.py`
+(see its docstring, sixth extension, for the handled subset and the shape of the output).  `Entry`, `Candidate` and the two policy
+enums are those of `Gen/EntryGen.v` (imported, not translated again).  `Table.keys`, `__iter__`, `TableProxy.keys`, `__iter__`,
+`EntryProxy.info`, `__eq__`, `__iter__`, `__len__`, `ListDimension` are not translated.  `coq/Proofs/TableGenProofs.v` proves the
+generated functions equal to the table model of `coq/Model/Entry.v` (`read`, `write`) for every number of dictionary dimensions.
+Any construct outside the subset, a definition missing or made twice, an import that is not the expected one, or a variable
+without a declared type raises `TranslatorAbort` with file:line.  The output file is rewritten only when its content changes.
+
+What this driver supplies, i.e. the assumptions of the tie:
+
+* everything `translator/entry_gen.py` assumes about entries (values are `ext`, a tag set is a duplicate-free list in insertion
+  order, tags are truthy); `Entry.combine` is declared as only reading its object (translated once more that way: same text as
+  `Gen/EntryGen.v`, or abort);
+* `dimensions` is a tuple of `DictDimension()` (a class without attributes): `isinstance(dim, ListDimension)` is then false and
+  `isinstance(dim, DictDimension)` true by the declared type, the list branch and the final `raise` are not translated (a table
+  with a list dimension is outside the tie);
+* keys are values of the Section's type `K` compared with its `keqb` (hashable = decidable equality; the proofs assume `keqb`
+  decides equality); a full key is the tuple of the keys of a chain of subscripts;
+* `_table` is a tree of `defaultdict`s that nothing else references: a cell (`Cell`) is `None`, an entry, or a dictionary kept as
+  the argument of its factory `lambda: _generate_table(rem)` and its items in insertion order; reading a missing key through
+  `entry[item]` calls the factory and stores the result, exactly as `defaultdict.__getitem__` does; a local variable that walks
+  the structure (`entry = entry[item]`) is the list of the keys followed; `_get_real` hands back a copy of the entry it finds,
+  which its callers only read;
+* a proxy (`TableProxy`, `EntryProxy`) refers to its table: the generated record holds the table as it is when the proxy is
+  built; proxies are temporaries (built and used within one chain of subscripts / method calls), the table is read back from the
+  last proxy of the chain.  `TableProxy.__getitem__` returns an object of either class: the type `Proxy`, whose methods dispatch
+  on the class (`AttributeError` / `TypeError` when the class lacks the method); `EntryProxy.combine` returns the proxy itself or
+  an entry: the type `Combined`;
+* `update(*candidates)` takes the candidates as one list; `other` in `combine` is an `Entry`.
 """
 from __future__ import annotations
 
@@ -116,7 +149,16 @@ def build(repo: Path):
     section_defs = unit.section_defs()
     text = "\n".join([
         "(* GENERATED by translator/table_gen.py (via translator/pyfun.py) from",
-        "   src/superrec2/utils/dynamic_programming.py -- do not edit. *)",
+        "   src/superrec2/utils/dynamic_programming.py -- do not edit.  Statement-by-statement translation of",
+        "   [_generate_table], [Table], [EntryProxy], [TableProxy] (and [Entry.__iter__]); entries, candidates and",
+        "   policies are those of Gen/EntryGen.v.  [_table] is a [Cell]: None, an entry, or a defaultdict -- the",
+        "   argument of its factory and its items in insertion order; a variable that walks the nested dictionaries",
+        "   is the list of the keys followed ([Cell_touch]: what reading r[k] does to a defaultdict, [Cell_get],",
+        "   [Cell_store]).  A proxy holds the table as it is when the proxy is built ([self.parent.f] is the",
+        "   variable [self'parent'f]); proxies are temporaries: after a chain of subscripts / method calls the table",
+        "   is read back from the last proxy.  [Proxy] / [Combined]: an object of one of two classes, with the",
+        "   dispatch of its methods.  Proofs/TableGenProofs.v proves these functions equal to the table model of",
+        "   Model/Entry.v. *)",
         "From Coq Require Import List Bool ZArith NArith.",
         "From SR Require Import Base.Ext.",
         "From SR Require Gen.EntryGen.",
